@@ -13,6 +13,14 @@ package main
 //            processes, `rare expression -d .. -k ..` in fresh processes (B2)
 //   one    : evaluates one match in this (fresh) process and prints the text as a JSON byte array
 //
+// Histories: every extractor run goes through runHistory - 1.. sources whose line numbers restart at 1,
+// fed as batches to ONE extractor.New with 1.. workers (each worker owns one long-lived expression
+// context), optionally with an ignore set that evaluates the view on the worker's context before the
+// extraction does (accessor after mutator, repeated evaluation of the same match).  The probe runs
+// under recover: a panic of the real code is recorded as a crash observation and the line is dropped,
+// so the process survives; every set of lines is first run guarded (with the probe) and the lines that
+// crash are not evaluated unguarded.
+//
 // The driver never decides whether a text is acceptable: every record is validated by TLC
 // (MiniJson_Trace) on the recorded bytes.  `gov` (encoding/json's opinion) is recorded only to
 // cross-check the specification's recogniser.
@@ -32,8 +40,10 @@ import (
 	"sort"
 	"strconv"
 	"strings"
+	"sync"
 	"unicode/utf8"
 
+	"rare/pkg/expressions"
 	"rare/pkg/extractor"
 	"rare/pkg/matchers"
 	"rare/pkg/matchers/dissect"
@@ -152,7 +162,218 @@ func buildPattern(kind string, names []string, ghost bool) string {
 
 func viewExpr(view string) string { return "{" + view + "}" }
 
-// runs the lines through a NEW extractor (one worker, one batch) and returns the matches in order
+// ---------------------------------------------------------------------------------------------
+// histories
+
+type probeEv struct {
+	src, line string
+	view      string
+	out       string
+	crash     string
+}
+
+// an ignore set that never ignores a healthy line: it evaluates the view n times on the worker's
+// context (the same one the extraction uses right afterwards) and logs what it saw
+type probe struct {
+	mu    sync.Mutex
+	views []string // evaluated in this order for every line; the last one is the view of the extraction
+	log   []probeEv
+}
+
+func safeGetKey(ctx expressions.KeyBuilderContext, key string) (out string, crash string) {
+	defer func() {
+		if r := recover(); r != nil {
+			crash = fmt.Sprint(r)
+			if crash == "" {
+				crash = "panic"
+			}
+		}
+	}()
+	return ctx.GetKey(key), ""
+}
+
+func (p *probe) IgnoreMatch(ctx expressions.KeyBuilderContext) bool {
+	src, line := ctx.GetKey("src"), ctx.GetKey("line")
+	ignore := false
+	var evs []probeEv
+	for _, view := range p.views {
+		out, crash := safeGetKey(ctx, view)
+		evs = append(evs, probeEv{src, line, view, out, crash})
+		if crash != "" {
+			ignore = true // the extraction would panic in the worker goroutine and take the process down
+			break
+		}
+	}
+	p.mu.Lock()
+	p.log = append(p.log, evs...)
+	p.mu.Unlock()
+	return ignore
+}
+
+type histCfg struct {
+	view      string // the view of the extraction
+	probeView string // the view the ignore set evaluates ("" = same); it always ends with the extraction's view (guard)
+	probes    int    // evaluations by the ignore set per line (0 = no ignore set)
+	workers   int
+	batch     int // lines per batch (0 = one batch per source)
+}
+
+type histEv struct {
+	S      int // source (0-based), Line: 1-based line number inside the source
+	Line   int
+	Phase  string // ignore | extract
+	View   string
+	Groups [][]byte
+	Out    string
+	Crash  string
+}
+
+func srcName(i int) string { return "src" + strconv.Itoa(i) }
+
+// runs the sources through a NEW extractor; returns every observed evaluation.  missing = lines that
+// produced neither a match nor a crash (setup trouble for patterns that are built to match)
+func runHistory(f matchers.Factory, cfg histCfg, sources [][][]byte) (evs []histEv, missing int, err error) {
+	nb := 0
+	for _, src := range sources {
+		nb += len(src) + 1
+	}
+	ch := make(chan extractor.InputBatch, nb)
+	for si, src := range sources {
+		bs := cfg.batch
+		if bs <= 0 {
+			bs = len(src)
+		}
+		for at := 0; at < len(src); at += bs {
+			end := min(at+bs, len(src))
+			batch := make([]extractor.BString, 0, end-at)
+			for _, l := range src[at:end] {
+				batch = append(batch, extractor.BString(append([]byte{}, l...)))
+			}
+			ch <- extractor.InputBatch{Batch: batch, Source: srcName(si), BatchStart: uint64(at + 1)}
+		}
+	}
+	close(ch)
+	conf := &extractor.Config{Matcher: f, Extract: viewExpr(cfg.view), Workers: cfg.workers}
+	var pr *probe
+	if cfg.probes > 0 {
+		pr = &probe{}
+		if cfg.probeView != "" && cfg.probeView != cfg.view {
+			for i := 0; i < cfg.probes; i++ {
+				pr.views = append(pr.views, cfg.probeView)
+			}
+			pr.views = append(pr.views, cfg.view)
+		} else {
+			for i := 0; i < cfg.probes; i++ {
+				pr.views = append(pr.views, cfg.view)
+			}
+		}
+		conf.Ignore = pr
+	}
+	ex, err := extractor.New(ch, conf)
+	if err != nil {
+		return nil, 0, err
+	}
+	var matches []extractor.Match
+	for ms := range ex.ReadChan() {
+		matches = append(matches, ms...)
+	}
+	type key struct{ src, line string }
+	probed := map[key][]probeEv{}
+	var order []key
+	if pr != nil {
+		for _, e := range pr.log {
+			k := key{e.src, e.line}
+			if _, ok := probed[k]; !ok {
+				order = append(order, k)
+			}
+			probed[k] = append(probed[k], e)
+		}
+	}
+	locate := func(src string, line int) (int, []byte, bool) {
+		if !strings.HasPrefix(src, "src") {
+			return 0, nil, false
+		}
+		si, e := strconv.Atoi(src[3:])
+		if e != nil || si < 0 || si >= len(sources) || line < 1 || line > len(sources[si]) {
+			return 0, nil, false
+		}
+		return si, sources[si][line-1], true
+	}
+	seen := map[key]bool{}
+	inst := f.CreateInstance()
+	addProbes := func(k key, si, line int, groups [][]byte) {
+		for _, e := range probed[k] {
+			evs = append(evs, histEv{S: si, Line: line, Phase: "ignore", View: e.view, Groups: groups, Out: e.out, Crash: e.crash})
+		}
+		delete(probed, k)
+	}
+	for _, m := range matches {
+		si, text, ok := locate(m.Source, int(m.LineNumber))
+		if !ok || string(text) != m.Line {
+			return nil, 0, fmt.Errorf("match %s:%d %q is not a line that was sent", m.Source, m.LineNumber, m.Line)
+		}
+		k := key{m.Source, strconv.FormatUint(m.LineNumber, 10)}
+		if seen[k] {
+			return nil, 0, fmt.Errorf("match %s:%d delivered twice", m.Source, m.LineNumber)
+		}
+		seen[k] = true
+		g := groupsOf(m)
+		addProbes(k, si, int(m.LineNumber), g)
+		evs = append(evs, histEv{S: si, Line: int(m.LineNumber), Phase: "extract", View: cfg.view, Groups: g, Out: m.Extracted})
+	}
+	for _, k := range order { // probed lines without a match: the probe crashed (or the line was dropped)
+		if _, left := probed[k]; !left {
+			continue
+		}
+		ln, _ := strconv.Atoi(k.line)
+		si, text, ok := locate(k.src, ln)
+		if !ok {
+			return nil, 0, fmt.Errorf("probe saw %s:%s which was never sent", k.src, k.line)
+		}
+		seen[k] = true
+		idx := inst.FindSubmatchIndex(text)
+		addProbes(k, si, ln, groupsOf(extractor.Match{Line: string(text), Indices: idx}))
+	}
+	for si, src := range sources {
+		for li := range src {
+			if !seen[key{srcName(si), strconv.Itoa(li + 1)}] {
+				missing++
+			}
+		}
+	}
+	return evs, missing, nil
+}
+
+func crashOf(evs []histEv) string {
+	for _, e := range evs {
+		if e.Crash != "" {
+			return e.Crash
+		}
+	}
+	return ""
+}
+
+func evJSON(e histEv) M {
+	return M{"s": e.S, "line": e.Line, "phase": e.Phase, "groups": BB(e.Groups),
+		"named": strings.Contains(e.View, "."), "numbered": strings.Contains(e.View, "#"),
+		"out": vh.BS(e.Out), "crash": e.Crash != "", "gov": e.Crash == "" && gov(e.Out)}
+}
+
+func histRecord(src string, t int, f matchers.Factory, cfg histCfg, nsrc int, evs []histEv) M {
+	l := make([]M, 0, len(evs))
+	msgs := []string{}
+	for _, e := range evs {
+		l = append(l, evJSON(e))
+		if e.Crash != "" {
+			msgs = append(msgs, e.Crash)
+		}
+	}
+	return M{"k": "hist", "src": src, "t": t, "names": nameTable(f), "workers": cfg.workers, "batch": cfg.batch, "probes": cfg.probes,
+		"sources": nsrc, "evs": l, "panics": msgs}
+}
+
+// runs the lines through a NEW extractor (one worker, one source, one batch) and returns the matches
+// in order; only for lines that are known not to crash (see evalView)
 func runExtractor(f matchers.Factory, expr string, lines [][]byte) ([]extractor.Match, error) {
 	ch := make(chan extractor.InputBatch, 1)
 	batch := make([]extractor.BString, len(lines))
@@ -283,6 +504,7 @@ type viewEval struct {
 	groups [][]byte
 	d      distinct
 	err    string
+	crash  string // the evaluation panicked (observed by the guarded run)
 }
 
 // evaluates `line` with the matcher and the view: `reps` identical lines through one extractor
@@ -295,6 +517,24 @@ func evalView(ms matcherSpec, view string, line []byte, reps, fresh int) viewEva
 		return r
 	}
 	r.names = nameTable(f)
+	// guarded first: the ignore set evaluates the view under recover
+	gevs, _, err := runHistory(f, histCfg{view: view, probes: 1, workers: 1}, [][][]byte{{line}})
+	if err != nil {
+		r.err = "extractor: " + err.Error()
+		return r
+	}
+	if c := crashOf(gevs); c != "" {
+		r.crash = c
+		r.groups = gevs[0].Groups
+		r.d.n = 1
+		return r
+	}
+	for _, e := range gevs {
+		if r.groups == nil {
+			r.groups = e.Groups
+		}
+		r.d.add(e.Out)
+	}
 	for k := 0; k <= fresh; k++ {
 		n := 1
 		if k == 0 {
@@ -340,6 +580,11 @@ func eqGroups(a, b [][]byte) bool {
 }
 
 func viewRecord(src string, t int, view string, e viewEval) M {
+	if e.crash != "" {
+		return M{"k": "view", "src": src, "t": t, "names": e.names, "groups": BB(e.groups),
+			"named": strings.Contains(view, "."), "numbered": strings.Contains(view, "#"),
+			"out": []int{}, "alts": [][]int{}, "evals": e.d.n, "gov": false, "crash": e.crash}
+	}
 	return M{"k": "view", "src": src, "t": t, "names": e.names, "groups": BB(e.groups),
 		"named": strings.Contains(view, "."), "numbered": strings.Contains(view, "#"),
 		"out": vh.BS(e.d.first), "alts": e.d.altBytes(), "evals": e.d.n, "gov": gov(e.d.first)}
@@ -371,12 +616,22 @@ func buildOps(ops []op) (out string, panicked string) {
 	return jb.String(), ""
 }
 
+func safeMarshal(m map[string]string) (out string, crash string) {
+	defer func() {
+		if r := recover(); r != nil {
+			out, crash = "", fmt.Sprint(r)
+		}
+	}()
+	return minijson.MarshalStringMapInferred(m), ""
+}
+
 func opsRecord(src string, t int, ops []op, reps int) M {
 	var d distinct
 	for i := 0; i < reps; i++ {
 		out, p := buildOps(ops)
 		if p != "" {
-			out = "PANIC " + p
+			return M{"k": "ops", "src": src, "t": t, "ops": ops, "det": true,
+				"out": []int{}, "alts": [][]int{}, "evals": i + 1, "gov": false, "crash": p}
 		}
 		d.add(out)
 	}
@@ -399,6 +654,13 @@ type vector struct {
 	Ref    []int           `json:"ref"`
 	Refi   []int           `json:"refi"`
 	Refs   []int           `json:"refs"`
+	Srcs   [][]histLine    `json:"srcs"`
+}
+
+type histLine struct {
+	Vals   [][]int `json:"vals"`
+	Groups [][]int `json:"groups"`
+	Ref    []int   `json:"ref"`
 }
 
 func namesEqual(got [][2]interface{}, want [][]interface{}) bool {
@@ -451,7 +713,8 @@ func c16Replay(args []string) error {
 	var vectors, evals, differs, multiNamed, procRuns int
 	setup := []M{}
 	samples := []M{}
-	var valVecs []vector
+	var valVecs, histVecs []vector
+	var histRuns, histEvents, crashes int
 	t := 0
 	err = vh.ReadNd(*in, func(raw json.RawMessage) error {
 		var v vector
@@ -461,6 +724,10 @@ func c16Replay(args []string) error {
 		vectors++
 		if v.T == "val" {
 			valVecs = append(valVecs, v)
+			return nil
+		}
+		if v.T == "hist" {
+			histVecs = append(histVecs, v)
 			return nil
 		}
 		if v.T != "view" {
@@ -487,7 +754,7 @@ func c16Replay(args []string) error {
 			setup = append(setup, M{"vector": v, "err": e.err, "names": e.names, "groups": BB(e.groups)})
 			return nil
 		}
-		if len(v.Named) >= 2 && *procEvery > 0 && multiNamed%*procEvery == 1 {
+		if e.crash == "" && len(v.Named) >= 2 && *procEvery > 0 && multiNamed%*procEvery == 1 {
 			// the same match in fresh processes
 			for p := 0; p < *procs; p++ {
 				o, err := exec.Command(self, "one", "-kind", "regex", "-pat", buildPattern("regex", names, false),
@@ -495,16 +762,22 @@ func c16Replay(args []string) error {
 				if err != nil {
 					return fmt.Errorf("fresh process: %v", err)
 				}
-				var ob []int
+				var ob oneOut
 				if err := json.Unmarshal(bytes.TrimSpace(o), &ob); err != nil {
 					return fmt.Errorf("fresh process output: %v", err)
 				}
-				e.d.add(string(vh.FromInts(ob)))
 				procRuns++
+				if ob.Crash != "" {
+					e.crash = ob.Crash
+					break
+				}
+				e.d.add(string(vh.FromInts(ob.Out)))
 			}
 		}
 		evals += e.d.n
-		if e.d.first != string(vh.FromInts(v.Ref)) {
+		if e.crash != "" {
+			crashes++
+		} else if e.d.first != string(vh.FromInts(v.Ref)) {
 			differs++
 		}
 		w.Write(viewRecord("regex", t, v.View, e))
@@ -521,6 +794,9 @@ func c16Replay(args []string) error {
 			return nil
 		}
 		evals += ed.d.n
+		if ed.crash != "" {
+			crashes++
+		}
 		w.Write(viewRecord("dissect", t, v.View, ed))
 		return nil
 	})
@@ -555,30 +831,151 @@ func c16Replay(args []string) error {
 			if len(lines) == 0 {
 				continue
 			}
-			matches, err := runExtractor(f, viewExpr(view), lines)
+			// the lines become many small sources (1..3 lines, line numbers restart at 1) of ONE extractor:
+			// guarded with one worker, then unguarded with one worker and with three
+			var sources [][][]byte
+			at := map[[2]int]int{}
+			for j := 0; j < len(lines); {
+				n := min([]int{1, 2, 1, 3}[len(sources)%4], len(lines)-j)
+				for k := 0; k < n; k++ {
+					at[[2]int{len(sources), k + 1}] = j + k
+				}
+				sources = append(sources, lines[j:j+n])
+				j += n
+			}
+			res := make([]viewEval, len(lines))
+			collect := func(evs []histEv) {
+				for _, e := range evs {
+					r := &res[at[[2]int{e.S, e.Line}]]
+					if r.groups == nil {
+						r.groups = e.Groups
+					} else if !eqGroups(r.groups, e.Groups) {
+						r.err = "groups differ between evaluations"
+					}
+					if e.Crash != "" {
+						r.crash = e.Crash
+						r.d.n++
+					} else {
+						r.d.add(e.Out)
+					}
+				}
+			}
+			gevs, missing, err := runHistory(f, histCfg{view: view, probes: 1, workers: 1}, sources)
 			if err != nil {
 				return err
 			}
-			if len(matches) != len(lines) {
-				return fmt.Errorf("%s: %d of %d value lines matched", kind, len(matches), len(lines))
+			if missing > 0 {
+				return fmt.Errorf("%s: %d of %d value lines did not match", kind, missing, len(lines))
 			}
-			for j, m := range matches {
+			collect(gevs)
+			// unguarded: without the lines that crash
+			var clean [][][]byte
+			cleanAt := map[[2]int]int{}
+			for si, src := range sources {
+				var keep [][]byte
+				for li, l := range src {
+					j := at[[2]int{si, li + 1}]
+					if res[j].crash == "" {
+						keep = append(keep, l)
+						cleanAt[[2]int{len(clean), len(keep)}] = j
+					}
+				}
+				if len(keep) > 0 {
+					clean = append(clean, keep)
+				}
+			}
+			at = cleanAt
+			for _, wk := range []int{1, 3} {
+				uevs, missing, err := runHistory(f, histCfg{view: view, workers: wk, batch: wk - 1}, clean)
+				if err != nil {
+					return err
+				}
+				if missing > 0 {
+					return fmt.Errorf("%s: %d value lines did not match (unguarded)", kind, missing)
+				}
+				collect(uevs)
+			}
+			for j := range lines {
 				v := valVecs[idx[j]]
-				g := groupsOf(m)
-				if int(m.LineNumber) != j+1 || !namesEqual(names, v.Names) || !groupsEqual(g, v.Groups) {
-					setup = append(setup, M{"vector": v, "kind": kind, "names": names, "groups": BB(g)})
+				e := res[j]
+				e.names = names
+				if e.err != "" || !namesEqual(names, v.Names) || !groupsEqual(e.groups, v.Groups) {
+					setup = append(setup, M{"vector": v, "kind": kind, "names": names, "groups": BB(e.groups), "err": e.err})
 					continue
 				}
-				var e viewEval
-				e.names, e.groups = names, g
-				e.d.add(m.Extracted)
-				evals++
-				if m.Extracted != string(vh.FromInts(v.Ref)) {
+				evals += e.d.n
+				if e.crash != "" {
+					crashes++
+				} else if e.d.first != string(vh.FromInts(v.Ref)) {
 					differs++
 				}
 				t++
 				w.Write(viewRecord(kind, t, view, e))
 			}
+		}
+	}
+
+	// ---- hist vectors: the sources of one extractor, as the model MiniJsonCtx runs them
+	for _, v := range histVecs {
+		names := make([]string, 2)
+		for _, i := range v.Named {
+			names[i-1] = string(rune('a' + i - 1))
+		}
+		ms := matcherSpec{"regex", buildPattern("regex", names, false)}
+		f, err := ms.factory()
+		if err != nil {
+			return err
+		}
+		var sources [][][]byte
+		nl := 0
+		for _, src := range v.Srcs {
+			var ls [][]byte
+			for _, hl := range src {
+				vals := make([][]byte, len(hl.Vals))
+				for i := range hl.Vals {
+					vals[i] = vh.FromInts(hl.Vals[i])
+				}
+				ls = append(ls, bytes.Join(vals, []byte("|")))
+				nl++
+			}
+			sources = append(sources, ls)
+		}
+		other := map[string]string{".": ".#", "#": ".", ".#": "#"}[v.View]
+		crashed := false
+		for ci, cfg := range []histCfg{
+			{view: v.View, probes: 2, workers: 1, batch: 1},                   // guarded; every line its own batch
+			{view: v.View, workers: 1},                                        // one batch per source, back to back
+			{view: v.View, probeView: other, probes: 1, workers: 1, batch: 2}, // another view of the same match first
+			{view: v.View, workers: 3, batch: 1},
+		} {
+			if crashed && cfg.probes == 0 {
+				continue // would take the process down
+			}
+			evs, missing, err := runHistory(f, cfg, sources)
+			if err != nil {
+				return err
+			}
+			bad := missing > 0 || !namesEqual(nameTable(f), v.Names)
+			for _, e := range evs {
+				if e.S >= len(v.Srcs) || e.Line > len(v.Srcs[e.S]) || !groupsEqual(e.Groups, v.Srcs[e.S][e.Line-1].Groups) {
+					bad = true
+				} else if e.Crash == "" && e.View == v.View && e.Out != string(vh.FromInts(v.Srcs[e.S][e.Line-1].Ref)) {
+					differs++
+				}
+			}
+			if bad {
+				setup = append(setup, M{"vector": v, "hist": ci, "missing": missing})
+				break
+			}
+			if crashOf(evs) != "" {
+				crashed = true
+				crashes++
+			}
+			t++
+			histRuns++
+			histEvents += len(evs)
+			evals += len(evs)
+			w.Write(histRecord("regex", t, f, cfg, len(sources), evs))
 		}
 	}
 	for i, v := range valVecs {
@@ -603,6 +1000,7 @@ func c16Replay(args []string) error {
 	}
 	vh.WriteJSON(*statsPath, M{"vectors": vectors, "val_vectors": len(valVecs), "records": w.N, "evaluations": evals,
 		"differs_from_model": differs, "multi_named_vectors": multiNamed, "fresh_process_runs": procRuns,
+		"hist_vectors": len(histVecs), "hist_runs": histRuns, "hist_events": histEvents, "crashes": crashes,
 		"setup_mismatches": len(setup), "setup": head(setup, 5), "samples": samples})
 	return nil
 }
@@ -638,8 +1036,16 @@ func c16One(args []string) error {
 	if e.err != "" {
 		return fmt.Errorf("%s", e.err)
 	}
-	fmt.Println(string(mustJSON(vh.BS(e.d.first))))
+	if len(e.d.alts) > 0 { // two texts inside this process: hand the other one to the parent
+		e.d.first = e.d.alts[0]
+	}
+	fmt.Println(string(mustJSON(oneOut{Out: vh.BS(e.d.first), Crash: e.crash})))
 	return nil
+}
+
+type oneOut struct {
+	Out   []int  `json:"out"`
+	Crash string `json:"crash"`
 }
 
 // ---------------------------------------------------------------------------------------------
@@ -751,6 +1157,7 @@ func c16Trace(args []string) error {
 	nops := fs.Int("ops", 1000, "random direct uses of the builder")
 	nxv := fs.Int("xv", 3000, "cross-validation samples")
 	reps := fs.Int("reps", 50, "evaluations of one match in one instance")
+	nhist := fs.Int("hist", 300, "random multi-source histories")
 	fs.Parse(args)
 	w, err := vh.NewNdWriter(*out)
 	if err != nil {
@@ -808,6 +1215,66 @@ func c16Trace(args []string) error {
 			outs = append(outs, e.d.first)
 		}
 	}
+	// ---- random histories: several sources (line numbers restart) through one extractor; lines are drawn
+	// from a small pool so that the same captures turn up in different sources, at different and at equal
+	// line numbers, next to other captures with the same line number
+	var histRuns, histEvents, histSkipped int
+	for i := 0; i < *nhist; i++ {
+		ng := 1 + r.Intn(3)
+		names := randNames(r, ng)
+		kind := "regex"
+		if r.Intn(4) == 0 {
+			kind = "dissect"
+		}
+		f, err := matcherSpec{kind, buildPattern(kind, names, false)}.factory()
+		if err != nil {
+			return err
+		}
+		pool := make([][]byte, 1+r.Intn(4))
+		for p := range pool {
+			vals := make([][]byte, ng)
+			for j := range vals {
+				vals[j] = randValue(r, false)
+				if len(vals[j]) > 24 {
+					vals[j] = vals[j][:24]
+				}
+			}
+			pool[p] = bytes.Join(vals, []byte("|"))
+		}
+		sources := make([][][]byte, 2+r.Intn(4))
+		for si := range sources {
+			sources[si] = make([][]byte, 1+r.Intn(3))
+			for li := range sources[si] {
+				sources[si][li] = pool[r.Intn(len(pool))]
+			}
+		}
+		view := views[r.Intn(3)]
+		guard := histCfg{view: view, probes: 1 + r.Intn(2), workers: 1, batch: r.Intn(3)}
+		if r.Intn(3) == 0 {
+			guard.probeView = views[r.Intn(3)]
+		}
+		cfgs := []histCfg{guard, {view: view, workers: 1, batch: r.Intn(3)}, {view: view, workers: 2 + r.Intn(3), batch: 1 + r.Intn(2)}}
+		crashed := false
+		for _, cfg := range cfgs {
+			if crashed && cfg.probes == 0 {
+				continue
+			}
+			evs, missing, err := runHistory(f, cfg, sources)
+			if err != nil {
+				return err
+			}
+			if missing > 0 { // dissect does not match every line
+				histSkipped++
+				break
+			}
+			crashed = crashed || crashOf(evs) != ""
+			t++
+			histRuns++
+			histEvents += len(evs)
+			evals += len(evs)
+			w.Write(histRecord(kind, t, f, cfg, len(sources), evs))
+		}
+	}
 	for i := 0; i < *nops; i++ {
 		no := 1 + r.Intn(4)
 		ops := make([]op, no)
@@ -827,9 +1294,13 @@ func c16Trace(args []string) error {
 				ops[j].Op = "string"
 				m[string(vh.FromInts(ops[j].Key))] = string(vh.FromInts(ops[j].Val))
 			}
-			o := minijson.MarshalStringMapInferred(m)
+			o, crash := safeMarshal(m)
 			evals++
-			w.Write(M{"k": "ops", "src": "marshal", "t": t, "ops": ops, "det": false, "out": vh.BS(o), "alts": [][]int{}, "evals": 1, "gov": gov(o)})
+			rec := M{"k": "ops", "src": "marshal", "t": t, "ops": ops, "det": false, "out": vh.BS(o), "alts": [][]int{}, "evals": 1, "gov": crash == "" && gov(o)}
+			if crash != "" {
+				rec["crash"] = crash
+			}
+			w.Write(rec)
 			continue
 		}
 		rec := opsRecord("direct", t, ops, 3)
@@ -865,7 +1336,7 @@ func c16Trace(args []string) error {
 		w.Write(M{"k": "xv", "text": B(text), "gov": ok, "cmp": ok && utf8.Valid(text), "mem": mem})
 	}
 	fmt.Println(string(mustJSON(M{"matches": matched, "nomatch": skipped, "evaluations": evals, "multi_named": multi,
-		"records": w.N, "xv": *nxv, "xv_valid": nvalid})))
+		"records": w.N, "xv": *nxv, "xv_valid": nvalid, "hist_runs": histRuns, "hist_events": histEvents, "hist_skipped": histSkipped})))
 	return nil
 }
 
@@ -1001,6 +1472,19 @@ func cliValue(r *rand.Rand) []byte {
 	}
 }
 
+func isPanic(stderr []byte) bool {
+	return bytes.Contains(stderr, []byte("panic: ")) || bytes.Contains(stderr, []byte("fatal error: ")) || bytes.Contains(stderr, []byte("goroutine "))
+}
+
+func panicLine(stderr []byte) string {
+	for _, ln := range strings.Split(string(stderr), "\n") {
+		if strings.HasPrefix(ln, "panic: ") || strings.HasPrefix(ln, "fatal error: ") {
+			return ln
+		}
+	}
+	return "panic"
+}
+
 var groupsRe = regexp.MustCompile(`Groups: (\d+)`)
 
 func c16Cli(args []string) error {
@@ -1011,6 +1495,8 @@ func c16Cli(args []string) error {
 	nh := fs.Int("histo", 6, "histogram runs")
 	nf := fs.Int("filter", 6, "filter runs (files)")
 	ne := fs.Int("expr", 6, "expression cases")
+	nm := fs.Int("multi", 6, "multi-file filter cases")
+	nmh := fs.Int("mhisto", 4, "multi-file histogram cases")
 	procs := fs.Int("procs", 10, "fresh processes per filter file / expression case")
 	lines := fs.Int("lines", 300, "identical lines per histogram run")
 	fs.Parse(args)
@@ -1021,6 +1507,8 @@ func c16Cli(args []string) error {
 	defer w.Close()
 	r := vh.NewRand(1600)
 	runs := 0
+	multiEvents := 0
+	multiHisto := 0
 	env := append(os.Environ(), "NO_COLOR=1", "TERM=dumb")
 	run := func(argv ...string) ([]byte, []byte, error) {
 		cmd := exec.Command(*rare, argv...)
@@ -1068,6 +1556,11 @@ func c16Cli(args []string) error {
 			return err
 		}
 		so, se, err := run("histogram", "-m", pat, "-e", "{.}", "--csv", csvFile, "-n", "1000", file)
+		if err != nil && isPanic(se) {
+			w.Write(M{"k": "histo", "names": nameTable(f), "groups": BB(groups), "lines": *lines, "rows": [][2]interface{}{}, "ngroups": 0,
+				"pattern": pat, "crash": panicLine(se)})
+			continue
+		}
 		if err != nil {
 			return fmt.Errorf("rare histogram: %v: %s", err, se)
 		}
@@ -1141,6 +1634,11 @@ func c16Cli(args []string) error {
 		}
 		for p := 0; p < *procs; p++ {
 			so, se, err := run("filter", flag, pat, "-e", viewExpr(view), "-l", "--workers", "1", file)
+			if err != nil && isPanic(se) {
+				w.Write(M{"k": "view", "src": "cli-filter", "t": i * 1000, "names": nameTable(f), "groups": [][]int{}, "named": strings.Contains(view, "."),
+					"numbered": strings.Contains(view, "#"), "out": []int{}, "alts": [][]int{}, "evals": 1, "gov": false, "crash": panicLine(se), "file": file})
+				break
+			}
 			if err != nil {
 				return fmt.Errorf("rare filter: %v: %s", err, se)
 			}
@@ -1176,6 +1674,215 @@ func c16Cli(args []string) error {
 			e.groups = groupsOf(extractor.Match{Line: string(fileLines[k]), Indices: idx})
 			e.d = ds[k]
 			w.Write(viewRecord("cli-filter", i*1000+k, view, e))
+		}
+	}
+
+	// ---- filter -l -e {view} over SEVERAL files: every file numbers its lines from 1; one worker gets
+	// the files back to back (-w 1), several workers share them; lines are drawn from a small pool
+	for i := 0; i < *nm; i++ {
+		ng := 2 + r.Intn(2)
+		names := randNames(r, ng)
+		names[0] = groupNames[i%len(groupNames)]
+		for j := 1; j < ng; j++ {
+			if names[j] == names[0] {
+				names[j] = ""
+			}
+		}
+		pat := buildPattern("regex", names, false)
+		f, err := matcherSpec{"regex", pat}.factory()
+		if err != nil {
+			return err
+		}
+		inst := f.CreateInstance()
+		view := views[i%3]
+		pool := make([][]byte, 2+r.Intn(3))
+		for p := range pool {
+			vals := make([][]byte, ng)
+			for j := range vals {
+				vals[j] = cliValue(r)
+			}
+			if p == 0 && i%2 == 0 {
+				vals = [][]byte{[]byte("alpha"), []byte("111"), []byte("x.log")}[:ng]
+			}
+			pool[p] = bytes.Join(vals, []byte("|"))
+		}
+		nfiles := 2 + r.Intn(4)
+		files := make([]string, nfiles)
+		content := make([][][]byte, nfiles)
+		for fi := range files {
+			files[fi] = filepath.Join(*dir, fmt.Sprintf("c16-multi-%d-%d.txt", i, fi))
+			var fb bytes.Buffer
+			nl := 1 + r.Intn(3)
+			if i%3 == 0 {
+				nl = 1 // one-line files
+			}
+			for k := 0; k < nl; k++ {
+				line := pool[(fi+k+r.Intn(2))%len(pool)]
+				content[fi] = append(content[fi], line)
+				fb.Write(line)
+				fb.WriteByte('\n')
+			}
+			if err := os.WriteFile(files[fi], fb.Bytes(), 0o644); err != nil {
+				return err
+			}
+		}
+		variants := [][]string{{"--workers", "1"}, {"--workers", "1", "--batch", "1", "--readers", "1"}, {}, {"--workers", "1", "-i", "{eq {" + view + "} zz}"}}
+		for vi, extra := range variants {
+			argv := append([]string{"filter", "-m", pat, "-e", viewExpr(view), "-l"}, extra...)
+			argv = append(argv, files...)
+			so, se, err := run(argv...)
+			rec := M{"k": "hist", "src": "cli-filter", "t": i*10 + vi, "names": nameTable(f), "workers": 0, "batch": 0, "probes": 0,
+				"sources": nfiles, "argv": argv, "panics": []string{}}
+			if err != nil && isPanic(se) {
+				rec["evs"] = []M{}
+				rec["crash"] = panicLine(se)
+				w.Write(rec)
+				continue
+			}
+			if err != nil {
+				return fmt.Errorf("rare filter %q: %v: %s", argv, err, se)
+			}
+			// "<file> <n>: <text>"; a text with a raw line feed continues on the following line(s)
+			var evs []M
+			var cur M
+			var text []byte
+			flush := func() {
+				if cur != nil {
+					cur["out"] = B(text)
+					cur["gov"] = gov(string(text))
+					evs = append(evs, cur)
+				}
+				cur = nil
+			}
+		LINES:
+			for _, ln := range bytes.Split(bytes.TrimSuffix(so, []byte("\n")), []byte("\n")) {
+				for fi, file := range files {
+					rest, ok := bytes.CutPrefix(ln, []byte(file+" "))
+					if !ok {
+						continue
+					}
+					c := bytes.Index(rest, []byte(": "))
+					if c <= 0 {
+						continue
+					}
+					no, err := strconv.Atoi(string(rest[:c]))
+					if err != nil || no < 1 || no > len(content[fi]) {
+						continue
+					}
+					flush()
+					idx := inst.FindSubmatchIndex(content[fi][no-1])
+					if idx == nil {
+						return fmt.Errorf("rare filter printed %s:%d which does not match %q", file, no, pat)
+					}
+					g := groupsOf(extractor.Match{Line: string(content[fi][no-1]), Indices: idx})
+					cur = M{"s": fi, "line": no, "phase": "extract", "groups": BB(g), "named": strings.Contains(view, "."),
+						"numbered": strings.Contains(view, "#"), "crash": false}
+					text = append([]byte{}, rest[c+2:]...)
+					continue LINES
+				}
+				if cur == nil {
+					return fmt.Errorf("rare filter %q: unexpected output line %q", argv, ln)
+				}
+				text = append(append(text, '\n'), ln...)
+			}
+			flush()
+			if evs == nil {
+				evs = []M{}
+			}
+			rec["evs"] = evs
+			w.Write(rec)
+			multiEvents += len(evs)
+		}
+	}
+
+	// ---- histogram -e {.} over SEVERAL files: the table has one row per distinct match, counted over all
+	// the files (the classes differ in the first, named, capture: plain words)
+	for i := 0; i < *nmh; i++ {
+		names := []string{groupNames[i%len(groupNames)], groupNames[(i+3)%len(groupNames)]}
+		pat := buildPattern("regex", names, false)
+		f, err := matcherSpec{"regex", pat}.factory()
+		if err != nil {
+			return err
+		}
+		inst := f.CreateInstance()
+		ncl := 2 + r.Intn(3)
+		pool := make([][]byte, ncl)
+		for c := range pool {
+			second := cliValue(r)
+			if c%2 == 0 {
+				second = []byte(strconv.Itoa(100 + r.Intn(900)))
+			}
+			pool[c] = bytes.Join([][]byte{[]byte(fmt.Sprintf("w%dx", c)), second}, []byte("|"))
+		}
+		nfiles := 2 + r.Intn(4)
+		files := make([]string, nfiles)
+		counts := make([]int, ncl)
+		for fi := range files {
+			files[fi] = filepath.Join(*dir, fmt.Sprintf("c16-mhisto-%d-%d.txt", i, fi))
+			var fb bytes.Buffer
+			nl := 1 + r.Intn(3)
+			if i%2 == 0 {
+				nl = 1
+			}
+			for k := 0; k < nl; k++ {
+				c := (fi + k*r.Intn(3)) % ncl
+				counts[c]++
+				fb.Write(pool[c])
+				fb.WriteByte('\n')
+			}
+			if err := os.WriteFile(files[fi], fb.Bytes(), 0o644); err != nil {
+				return err
+			}
+		}
+		classes := []M{}
+		for c := range pool {
+			if counts[c] > 0 {
+				idx := inst.FindSubmatchIndex(pool[c])
+				if idx == nil {
+					return fmt.Errorf("histogram setup: %q does not match %q", pat, pool[c])
+				}
+				classes = append(classes, M{"groups": BB(groupsOf(extractor.Match{Line: string(pool[c]), Indices: idx})), "count": counts[c]})
+			}
+		}
+		for vi, extra := range [][]string{{"--workers", "1"}, {}} {
+			csvFile := filepath.Join(*dir, fmt.Sprintf("c16-mhisto-%d-%d.csv", i, vi))
+			argv := append([]string{"histogram", "-m", pat, "-e", "{.}", "--csv", csvFile, "-n", "1000"}, extra...)
+			argv = append(argv, files...)
+			so, se, err := run(argv...)
+			rec := M{"k": "mhisto", "names": nameTable(f), "classes": classes, "rows": [][2]interface{}{}, "ngroups": 0, "argv": argv}
+			if err != nil && isPanic(se) {
+				rec["crash"] = panicLine(se)
+				w.Write(rec)
+				continue
+			}
+			if err != nil {
+				return fmt.Errorf("rare histogram %q: %v: %s", argv, err, se)
+			}
+			mm := groupsRe.FindSubmatch(so)
+			if mm == nil {
+				return fmt.Errorf("rare histogram: no group count in the output: %q", so)
+			}
+			rec["ngroups"], _ = strconv.Atoi(string(mm[1]))
+			cf, err := os.Open(csvFile)
+			if err != nil {
+				return err
+			}
+			rows, err := csv.NewReader(cf).ReadAll()
+			cf.Close()
+			if err != nil || len(rows) < 1 {
+				return fmt.Errorf("rare histogram: unreadable csv: %v", err)
+			}
+			recRows := [][2]interface{}{}
+			for _, row := range rows[1:] {
+				if len(row) != 2 {
+					return fmt.Errorf("rare histogram: csv row %q", row)
+				}
+				c, _ := strconv.Atoi(row[1])
+				recRows = append(recRows, [2]interface{}{vh.BS(row[0]), c})
+			}
+			rec["rows"] = recRows
+			w.Write(rec)
+			multiHisto++
 		}
 	}
 
@@ -1218,17 +1925,27 @@ func c16Cli(args []string) error {
 		}
 		argv = append(argv, viewExpr(view))
 		var d distinct
+		crash := ""
 		for p := 0; p < *procs*2; p++ {
 			so, se, err := run(argv...)
+			if err != nil && isPanic(se) {
+				crash = panicLine(se)
+				break
+			}
 			if err != nil {
 				return fmt.Errorf("rare expression %q: %v: %s", argv, err, se)
 			}
 			d.add(string(so))
 		}
+		if crash != "" {
+			w.Write(M{"k": "ops", "src": "cli-expression", "t": i, "ops": ops, "det": true, "out": []int{}, "alts": [][]int{},
+				"evals": d.n + 1, "gov": false, "argv": argv, "crash": crash})
+			continue
+		}
 		w.Write(M{"k": "ops", "src": "cli-expression", "t": i, "ops": ops, "det": true, "out": vh.BS(d.first), "alts": d.altBytes(),
 			"evals": d.n, "gov": gov(d.first), "argv": argv})
 	}
-	fmt.Println(string(mustJSON(M{"runs": runs, "records": w.N})))
+	fmt.Println(string(mustJSON(M{"runs": runs, "records": w.N, "multi_file_events": multiEvents, "multi_file_histograms": multiHisto})))
 	return nil
 }
 
